@@ -52,6 +52,8 @@ unsafe impl<L: Lockable> RawLock for RetryingLockCollection<L> {
 		// these will be unlocked in case of a panic
 		let first_index = Cell::new(0);
 		let locked = Cell::new(0);
+		// whether the blocking acquisition of `locks[first_index]` has returned
+		let first_locked = Cell::new(false);
 		handle_unwind(
 			|| unsafe {
 				'outer: loop {
@@ -59,6 +61,7 @@ unsafe impl<L: Lockable> RawLock for RetryingLockCollection<L> {
 					// the same lock to be unlocked
 					// safety: we have the thread key
 					locks[first_index.get()].raw_write();
+					first_locked.set(true);
 					for (i, lock) in locks.iter().enumerate() {
 						if i == first_index.get() {
 							// we've already locked this one
@@ -83,6 +86,7 @@ unsafe impl<L: Lockable> RawLock for RetryingLockCollection<L> {
 
 							// nothing is locked anymore
 							locked.set(0);
+							first_locked.set(false);
 
 							// call lock on this to prevent a spin loop
 							first_index.set(i);
@@ -95,8 +99,20 @@ unsafe impl<L: Lockable> RawLock for RetryingLockCollection<L> {
 				}
 			},
 			|| {
-				utils::attempt_to_recover_writes_from_panic(&locks[0..locked.get()]);
-				if first_index.get() >= locked.get() {
+				if !first_locked.get() {
+					// the blocking acquisition itself panicked: nothing is held
+					return;
+				}
+				// `locked` members other than `first_index` were taken, in index
+				// order: together with `first_index` they fill `0..end`, unless
+				// `first_index` lies behind them
+				let end = if first_index.get() < locked.get() {
+					locked.get() + 1
+				} else {
+					locked.get()
+				};
+				utils::attempt_to_recover_writes_from_panic(&locks[0..end]);
+				if first_index.get() >= end {
 					locks[first_index.get()].raw_unlock_write();
 				}
 			},
@@ -151,10 +167,13 @@ unsafe impl<L: Lockable> RawLock for RetryingLockCollection<L> {
 
 		let locked = Cell::new(0);
 		let first_index = Cell::new(0);
+		// whether the blocking acquisition of `locks[first_index]` has returned
+		let first_locked = Cell::new(false);
 		handle_unwind(
 			|| 'outer: loop {
 				// safety: we have the thread key
 				locks[first_index.get()].raw_read();
+				first_locked.set(true);
 				for (i, lock) in locks.iter().enumerate() {
 					if i == first_index.get() {
 						continue;
@@ -175,6 +194,7 @@ unsafe impl<L: Lockable> RawLock for RetryingLockCollection<L> {
 
 						// these are no longer locked
 						locked.set(0);
+						first_locked.set(false);
 
 						// don't go into a spin loop, wait for this one to lock
 						first_index.set(i);
@@ -186,8 +206,18 @@ unsafe impl<L: Lockable> RawLock for RetryingLockCollection<L> {
 				break;
 			},
 			|| {
-				utils::attempt_to_recover_reads_from_panic(&locks[0..locked.get()]);
-				if first_index.get() >= locked.get() {
+				if !first_locked.get() {
+					// the blocking acquisition itself panicked: nothing is held
+					return;
+				}
+				// see `raw_write`
+				let end = if first_index.get() < locked.get() {
+					locked.get() + 1
+				} else {
+					locked.get()
+				};
+				utils::attempt_to_recover_reads_from_panic(&locks[0..end]);
+				if first_index.get() >= end {
 					locks[first_index.get()].raw_unlock_read();
 				}
 			},
